@@ -685,6 +685,38 @@ def flatten_events(events):
     return out
 
 
+# ---------------------------------------------------------------------------------------------------------
+# _refresh_dbcs range computation (model: refresh_range; theorem C35_refresh_range_covers)
+
+_REFRESH_SESSIONS = {}
+
+
+def run_refresh(case):
+    """Put bytes into a text row of a real page, let the real _refresh_dbcs rebuild the unicode row; return
+    (old cells, new cells, start, stop) with cells coded as ints."""
+    cp = case['cp']
+    if cp not in _REFRESH_SESSIONS:
+        s = common.new_session(**session_kwargs({'video': 'dbcs' if cp == '936' else 'vga'}))
+        s.start()
+        _REFRESH_SESSIONS[cp] = s
+    page = _REFRESH_SESSIONS[cp]._impl.display.pages[0]
+    row = 3
+    width = page._width
+    base = (case['base'] * width)[:width]
+    page._rows[row - 1].chars[:] = [bytes([b]) for b in base]
+    page._refresh_dbcs(row, 1, width)
+    old = list(page._dbcs_text[row - 1])
+    for pos, b in case['edits']:
+        page._rows[row - 1].chars[pos % width] = bytes([b])
+    start, stop = page._refresh_dbcs(row, case['os'], case['oe'])
+    new = list(page._dbcs_text[row - 1])
+    codes = {}
+
+    def code(c):
+        return codes.setdefault(c, len(codes) + 1)
+    return [code(c) for c in old], [code(c) for c in new], start, stop
+
+
 class C35(core.Check):
     ID = 'C35'
     GEN = ['gen_signals']
@@ -771,13 +803,29 @@ class C35(core.Check):
             {'cfg': {'video': 'ega'}, 'stmts': ['SCREEN 7,,1,7', 'PSET (3,3),2', 'SCREEN 9,,0,0', 'LINE (0,0)-(20,5),3,BF',
                                                 '@resume'], 'resume': 0},
             {'cfg': {'video': 'vga'}, 'stmts': [], 'resume': 1},
+            # _refresh_dbcs: a lead byte written in front of an existing byte changes the cell AFTER the dirty one
+            {'k': 'refresh', 'cp': '936', 'base': [65], 'edits': [[9, 0xB0]], 'os': 10, 'oe': 10},
+            {'k': 'refresh', 'cp': '936', 'base': [0xB0, 0xA1], 'edits': [[10, 65]], 'os': 11, 'oe': 11},
+            {'k': 'refresh', 'cp': '936', 'base': [65], 'edits': [], 'os': 80, 'oe': 0},
+            {'k': 'refresh', 'cp': '437', 'base': [32], 'edits': [[0, 65], [79, 66]], 'os': 40, 'oe': 41},
         ]
 
     def gen_cases(self, n):
         rng = self.rng
         hist = {}
         out = []
-        for _ in range(n):
+        n_refresh = 8
+        for i in range(n_refresh):
+            cp = '936' if i % 2 == 0 else '437'
+            pool = [0xB0, 0xA1, 0xC4, 0xE3, 0x81, 0x40, 65, 66, 32, 32, 255, 128] if cp == '936' else [65, 66, 32, 1, 219, 255]
+            base = [rng.choice(pool) for _ in range(rng.choice([1, 2, 7, 80]))]
+            edits = [[rng.choice([0, 1, 2, 39, 40, 78, 79, rng.randrange(80)]), rng.choice(pool)]
+                     for _ in range(rng.choice([0, 1, 1, 2, 5]))]
+            a = rng.choice([1, 2, 40, 79, 80, 81])
+            out.append({'k': 'refresh', 'cp': cp, 'base': base, 'edits': edits, 'os': a,
+                        'oe': rng.choice([a, a, 80, 0, a - 1, a + 3])})
+            hist['_refresh_dbcs range'] = hist.get('_refresh_dbcs range', 0) + 1
+        for _ in range(max(0, n - n_refresh)):
             c = gen_history(rng)
             out.append(c)
             hist['adapter ' + c['cfg']['video']] = hist.get('adapter ' + c['cfg']['video'], 0) + 1
@@ -801,7 +849,17 @@ class C35(core.Check):
             cache[key] = run_history(case)
         return cache[key]
 
+    def _refresh(self, case):
+        cache = self.__dict__.setdefault('_refreshes', {})
+        key = core.sha(case)
+        if key not in cache:
+            cache[key] = run_refresh(case)
+        return cache[key]
+
     def impl(self, case):
+        if case.get('k') == 'refresh':
+            old, new, start, stop = self._refresh(case)
+            return [start, stop]
         r = self._cached(case)
         out = flatten_events(r.events)
         if r.final is None:
@@ -809,6 +867,9 @@ class C35(core.Check):
         return out + [-1] + r.final
 
     def model_term(self, case):
+        if case.get('k') == 'refresh':
+            old, new, start, stop = self._refresh(case)
+            return '(enc_range (refresh_range %s %s %s %s))' % (core.zl(old), core.zl(new), _z(case['os']), _z(case['oe']))
         r = self._cached(case)
         ph, pw, th, tw, fw, fh, n, v = r.init
         terms = [op_term(o) for o in r.ops]
@@ -819,9 +880,22 @@ class C35(core.Check):
                 % (ph, pw, th, tw, fw, fh, n, v, 'true' if r.final is not None else 'false', '; '.join(terms)))
 
     def nontrivial(self, case, out):
+        if case.get('k') == 'refresh':
+            return True
         return sum(1 for i in range(len(out) - 1) if out[i] == E_SIG) > 2 or len(out) > 40
 
     def oracle(self, case, out):
+        if case.get('k') == 'refresh':
+            # the range returned contains the range given and every unicode cell that changed
+            old, new, start, stop = self._refresh(case)
+            if len(old) != len(new):
+                return '_refresh_dbcs changed the row length'
+            if not (start <= case['os'] and case['oe'] <= stop):
+                return '_refresh_dbcs returned (%d, %d), not a widening of (%d, %d)' % (start, stop, case['os'], case['oe'])
+            bad = [i + 1 for i in range(len(old)) if old[i] != new[i] and not start <= i + 1 <= stop]
+            if bad:
+                return '_refresh_dbcs changed column %d outside the range (%d, %d) it returned' % (bad[0], start, stop)
+            return None
         r = self._cached(case)
         if r.fail:
             return r.fail
